@@ -41,7 +41,7 @@ QUICK_FAMS = ['II', 'OO', 'LF', 'fs', 'QO', 'OI', 'UU', 'IO']
 
 
 def must_see(tier):
-    m = {'failures-injected': 1500, 'outcome:MemoryError': 1000,
+    m = {'big-container': 10, 'failures-injected': 1500, 'outcome:MemoryError': 1000,
          'failures-injected:stored': 300, 'stored-operand': 20,
          'commit-after-failure-read-back': 100,
          'outcome:unchanged': 300, 'sort-buffer-fallback': 1}
@@ -79,8 +79,15 @@ def plan(tier, seed):
     return specs
 
 
+_DEFAULT_SIZES = {}
+
+
 def run_shard(spec, rec):
     fam = families.get(spec['family'])
+    for kind_ in families.TREE_KINDS:
+        c_ = fam.cls(kind_, 'c')
+        _DEFAULT_SIZES.setdefault((fam.name, kind_), (c_.max_leaf_size,
+                                                      c_.max_internal_size))
     arm = fam.cmod._verif_alloc_arm
     count = fam.cmod._verif_alloc_count
     for ci in range(spec['containers']):
@@ -108,6 +115,20 @@ def run_container(fam, kind, rng, rec, ci, arm, count):
     uni = [k for k in fam.key_universe(rng, n=26) if k is not None]
     rng.shuffle(uni)
     nkeys = 0 if ci % 5 == 4 else rng.randint(1, 18)
+    # every sixth container is BIG: leaves that have grown past their
+    # initial capacity several times (and, for trees, the default node
+    # sizes half of the time), then deleted from - whatever a leaf does
+    # with its memory when it shrinks happens only there
+    big = ci % 6 == 3
+    if big:
+        uni = list(dict.fromkeys(
+            k for k in fam.key_universe(rng, n=140) if k is not None))
+        rng.shuffle(uni)
+        nkeys = min(len(uni) - 4, rng.randint(40, 110))
+        if is_tree and rng.random() < .5:
+            sizes = None
+            harness.set_node_sizes(cls, *_DEFAULT_SIZES[(fam.name, kind)])
+        rec.ev('big-container')
     base_keys = uni[:nkeys]
     free = uni[nkeys:]
     base_vals = {k: rng.choice(vals) for k in base_keys}
@@ -210,7 +231,7 @@ def run_container(fam, kind, rng, rec, ci, arm, count):
                         None))
     # operations that allocate only through the loading of ghost nodes
     # (stored containers): deletes and reads
-    if stored[0] and base_keys:
+    if (stored[0] or big) and base_keys:
         def minus(k):
             return [x for x in before
                     if (x[0] if is_mapping else x) != k]
@@ -228,6 +249,30 @@ def run_container(fam, kind, rng, rec, ci, arm, count):
                 f_ = lambda c, k=k: c.remove(k)
             f_.deleted_key = k
             ops.append(('delete', f_, [before, minus(k)], None))
+        if big:
+            # most of the contents deleted in one go (ascending, descending
+            # or shuffled): any prefix of the deletions may be what is left
+            order = sort_keys(list(base_keys))
+            r_ = rng.random()
+            if r_ < .3:
+                order.reverse()
+            elif r_ < .6:
+                rng.shuffle(order)
+            order = order[:len(order) - rng.randint(0, 3)]
+
+            def del_many(c, order=order):
+                for k in order:
+                    if is_mapping:
+                        del c[k]
+                    else:
+                        c.remove(k)
+            gone = set()
+            pref = [list(before)]
+            for k in order:
+                gone.add(k)
+                pref.append([x for x in before
+                             if (x[0] if is_mapping else x) not in gone])
+            ops.append(('delete-many', del_many, pref, None))
         kmin = (before[0][0] if is_mapping else before[0])
         kmax = (before[-1][0] if is_mapping else before[-1])
         if is_mapping:
@@ -489,7 +534,24 @@ def run_container(fam, kind, rng, rec, ci, arm, count):
                     continue
                 rec.ev('failed-setstate-target-checked')
                 try:
-                    # and it must be usable: load it again, use it
+                    # and it must be usable as it is: ordinary inserts and
+                    # deletes on the node the failed load left behind ...
+                    if eq(tgot, []) and kind in ('Bucket', 'Set') and free:
+                        for k_ in free[:3]:
+                            if is_mapping:
+                                tgt[k_] = vals[0]
+                            else:
+                                tgt.add(k_)
+                        if len(tgt) != len(free[:3]):
+                            raise AssertionError('inserts after the failed '
+                                                 'load: wrong length')
+                        for k_ in free[:3]:
+                            if is_mapping:
+                                del tgt[k_]
+                            else:
+                                tgt.remove(k_)
+                        rec.ev('failed-setstate-target-used')
+                    # ... and it must accept the load again
                     tgt.__setstate__(c.__getstate__())
                     if not eq(contents(tgt), before):
                         raise AssertionError('second __setstate__ wrong')
